@@ -356,10 +356,16 @@ class Engine:
         if t in s.bodies.simple: return s.const(s.bodies.simple[t], st)
         if t in s.bodies:
             if t not in s.const_cache:
-                outs = s.call_body(s.new_state(), s.bodies[t], [])
+                cs = s.new_state(); cs.frames.append(Frame(s.bodies[t], 1))
+                outs = s.run(cs, 1, 0, None)
                 if len(outs) != 1: raise Inconclusive('const item forks: ' + t)
-                s.const_cache[t] = outs[0][1]
-            return s.const_cache[t]
+                cs = outs[0][1]; cv = cs.frames[-1].locals.get(0, UNIT)
+                # a promoted constant is a reference to a value: keep the pointee and materialise it in the harness frame of each state
+                s.const_cache[t] = ('ref', s.deref(cs, cv)) if isinstance(cv, RefV) else ('val', cv)
+            kind, val = s.const_cache[t]
+            if kind == 'val' or st is None: return val
+            st.frames[0].locals[('const', t)] = val
+            return RefV(0, ('const', t), ())
         a = s.resolve_name(t)
         if (a in s.bodies or a in s.bodies.simple) and a != t: return s.const(a, st)
         ev = s.enum_variant(t)
